@@ -48,7 +48,8 @@ def run(tier, seed):
         for c in cs:
             if c.get("accept") is False:
                 for sep in (" ", "\n", "\r\n", "\t", " /* é漢 */ ", " // é\r\n", " \n", "\n\n", "\t \r\n"):
-                    fam_cases.append({"kind": "total", "entry": "program", "tokens": c["tokens"], "sep": sep})
+                    fam_cases.append({"kind": "total", "entry": "program", "tokens": c["tokens"], "sep": sep,
+                                      "lead": ("", "\n\n", "  \n", "\r\n")[len(fam_cases) % 4]})
     cases = fam_cases + cases
     results = run_replay("C20", cases)
     events, origin = [], []
